@@ -17,6 +17,72 @@ type Leaf struct {
 	Vals    F64s      `json:"vals"`
 	Tracked bool      `json:"tracked"`
 	Via     int       `json:"via,omitempty"` // provenance of the library tensor (lib.NewVia)
+	// Pre (tracked leaves only): the operand handed to the program is not the leaf itself but the
+	// result of an identity derivation kept in the graph (Identity); gradients must then reach
+	// both the derived operand and the leaf behind it
+	Pre int `json:"pre,omitempty"`
+}
+
+// NPre is the number of identity derivations of Identity (Pre in 1..NPre-1).
+const NPre = 12
+
+// Identity returns a tensor with x's shape and values computed from x by tracked operations
+// whose Jacobian is the identity; derivations that do not apply to the shape fall back to 1.
+func Identity(x tensor.Tensor, k int) (tensor.Tensor, error) {
+	shape := x.Shape()
+	rank := len(shape)
+	conf := lib.Conf(false)
+	switch {
+	case k == 2:
+		return x.Reshape(append([]int{}, shape...))
+	case k == 3:
+		return x.Broadcast(append([]int{}, shape...))
+	case k == 4:
+		return x.Slice(nil)
+	case k == 5 && rank < 6:
+		y, err := x.UnSqueeze(0)
+		if err != nil {
+			return nil, err
+		}
+		return y.Squeeze(0)
+	case k == 6:
+		ones, err := tensor.Ones(append([]int{}, shape...), conf)
+		if err != nil {
+			return nil, err
+		}
+		return x.Mul(ones)
+	case k == 7:
+		zeros, err := tensor.Zeros(append([]int{}, shape...), conf)
+		if err != nil {
+			return nil, err
+		}
+		return zeros.Patch(nil, x)
+	case k == 8 && rank >= 1:
+		y, err := x.Flatten(0)
+		if err != nil {
+			return nil, err
+		}
+		return y.Reshape(append([]int{}, shape...))
+	case k == 9 && rank >= 2:
+		y, err := x.Transpose()
+		if err != nil {
+			return nil, err
+		}
+		return y.Transpose()
+	case k == 10:
+		zero, err := tensor.Zeros(nil, conf)
+		if err != nil {
+			return nil, err
+		}
+		return x.Add(zero)
+	case k == 11:
+		y, err := x.Broadcast(append([]int{}, shape...))
+		if err != nil {
+			return nil, err
+		}
+		return y.Broadcast(append([]int{}, shape...))
+	}
+	return x.Scale(1), nil
 }
 
 // Node is one operation. In holds operand ids: ids < len(leaves) are leaves, the rest nodes.
@@ -264,11 +330,31 @@ func ApplyLib(n Node, in []tensor.Tensor, p *Passed) (tensor.Tensor, error) {
 
 // RunLib builds all leaves and nodes of p through the library.
 func RunLib(p Program) ([]tensor.Tensor, error) {
+	vals, _, err := RunLibBases(p)
+	return vals, err
+}
+
+// RunLibBases is RunLib; bases[i] is the leaf tensor behind operand i where the operand is an
+// identity derivation of it (Leaf.Pre), nil otherwise.
+func RunLibBases(p Program) ([]tensor.Tensor, []tensor.Tensor, error) {
+	vals, bases, err := runLib(p)
+	return vals, bases, err
+}
+
+func runLib(p Program) ([]tensor.Tensor, []tensor.Tensor, error) {
 	vals := make([]tensor.Tensor, 0, len(p.Leaves)+len(p.Nodes))
+	bases := make([]tensor.Tensor, len(p.Leaves))
 	for i, l := range p.Leaves {
 		x, err := lib.NewVia(l.Shape, l.Vals, l.Tracked, l.Via)
 		if err != nil {
-			return nil, fmt.Errorf("leaf %d: %w", i, err)
+			return nil, nil, fmt.Errorf("leaf %d: %w", i, err)
+		}
+		if l.Tracked && l.Pre > 0 {
+			bases[i] = x
+			x, err = Identity(x, l.Pre)
+			if err != nil {
+				return nil, nil, fmt.Errorf("leaf %d: identity derivation %d: %w", i, l.Pre, err)
+			}
 		}
 		vals = append(vals, x)
 	}
@@ -277,22 +363,50 @@ func RunLib(p Program) ([]tensor.Tensor, error) {
 		for k, o := range n.In {
 			in[k] = vals[o]
 		}
+		var first tensor.Tensor
 		if n.Twice {
-			// the same call was made once before (its result is dropped)
-			if _, err := ApplyLib(n, in, nil); err != nil {
-				return nil, fmt.Errorf("node %d (%s), first of two calls: %w", i, n.Op, err)
+			// the same call was made once before
+			var err error
+			if first, err = ApplyLib(n, in, nil); err != nil {
+				return nil, nil, fmt.Errorf("node %d (%s), first of two calls: %w", i, n.Op, err)
 			}
 		}
 		y, err := ApplyLib(n, in, nil)
 		if err != nil {
-			return nil, fmt.Errorf("node %d (%s): %w", i, n.Op, err)
+			return nil, nil, fmt.Errorf("node %d (%s): %w", i, n.Op, err)
 		}
 		if y == nil {
-			return nil, fmt.Errorf("node %d (%s): nil result without error", i, n.Op)
+			return nil, nil, fmt.Errorf("node %d (%s): nil result without error", i, n.Op)
+		}
+		if first != nil {
+			// the first result is still what it was, and equal to the second
+			if err := sameResult(first, y); err != nil {
+				return nil, nil, fmt.Errorf("node %d (%s): the same call made twice on the same operands: %w", i, n.Op, err)
+			}
 		}
 		vals = append(vals, y)
 	}
-	return vals, nil
+	return vals, bases, nil
+}
+
+func sameResult(a, b tensor.Tensor) error {
+	as, av, err := lib.Read(a)
+	if err != nil {
+		return fmt.Errorf("first result unreadable: %w", err)
+	}
+	bs, bv, err := lib.Read(b)
+	if err != nil {
+		return fmt.Errorf("second result unreadable: %w", err)
+	}
+	if !ref.EqShape(as, bs) {
+		return fmt.Errorf("results have shapes %v and %v", as, bs)
+	}
+	for i := range av {
+		if !lib.SameBits(av[i], bv[i]) {
+			return fmt.Errorf("results differ at %v: %v vs %v", ref.Unravel(i, as), av[i], bv[i])
+		}
+	}
+	return nil
 }
 
 // Tracked computes the model's tracked flag of every value (no spent tensors involved):
